@@ -139,11 +139,14 @@ class EmptyDict(T):
 
 
 class MapOf(T):
-    """dict from symbolic int keys to records of model `elem` (struct of arrays)."""
+    """dict from symbolic int keys to records of model `elem` (struct of arrays).
+    `key=Opaque(tag)`: the keys are objects known only by identity (the symbolic side is unchanged -- an opaque
+    value *is* an integer id --; a native rebuild keys the dict by the same tokens that stand for Opaque(tag) values)."""
 
-    def __init__(self, elem, default_factory=False):
+    def __init__(self, elem, default_factory=False, key=None):
         self.elem = elem
         self.default_factory = default_factory
+        self.key = key
 
 
 class ExtT(T):
